@@ -57,6 +57,7 @@ def scenarios(rnd, tier):
     return out
 
 
+DETAIL_AT = {"action": 25, "action_noack": 25}     # 24-octet header + category
 TAGS_AT = {"beacon": 36, "probe_resp": 36, "assoc_resp": 30, "reassoc_resp": 30, "probe_req": 24, "assoc_req": 28, "reassoc_req": 34, "auth": 30, "deauth": 26, "disassoc": 26}
 
 
@@ -80,6 +81,7 @@ def search_failing_input(ctx, exe, lines, c_outs, m_outs):
     nofault = getattr(c14.fault_lines, "nofault", {})
     found = 0
     pend = []
+    pend_act = []
     for l, c, m in zip(lines, c_outs, m_outs):
         if c is None or c.startswith(("CRASH", "SKIPPED")) or c == fw.split_model(m)[0]:
             continue
@@ -103,10 +105,32 @@ def search_failing_input(ctx, exe, lines, c_outs, m_outs):
                 why = "with allocation %s refused every call of `%s` reports success, but the frame differs from the fault-free one: a tag that could not be stored is reported as stored, or stored data was lost" % (l.split()[1], fw.clip(inner, 100))
             elif g and g.group(1) == "0" and int(g.group(2)) < 0 and kind in TAGS_AT and " ops=" in inner:
                 pend.append((l, cc, inner, kind, g.group(5)))
+            elif g and g.group(1) == "0" and int(g.group(2)) < 0 and kind in DETAIL_AT and " ops=" in inner and l.split()[2] == "0":
+                # a single refused request and the LAST call reports failure: every earlier call ran fault-free
+                pend_act.append((l, cc, inner, kind, g.group(5)))
         if why:
             found += 1
             if found <= 3:
                 ctx.violation("S-alloc/fault-answer:" + l[:300], why, {"kind": "line", "suite": "S-alloc/faults", "line": l, "observed": c, "expected": "an error indication, or the fault-free result: " + base[:300]})
+    if pend_act and found < 3:
+        sib = []
+        for l, cc, inner, kind, dump in pend_act[:40]:
+            head, ops = inner.split(" ops=")
+            ops, rest = (ops.split(" ", 1) + [""])[:2]
+            shorter = ",".join(ops.split(",")[:-1])
+            sib.append("alloc none 0 -1 " + head + (" ops=" + shorter if shorter else "") + (" " + rest if rest else ""))
+        so, _ = diffrun.run_harness_all(exe, sib)
+        for (l, cc, inner, kind, dump), o in zip(pend_act[:40], so):
+            gb = re.match(r"ret=(-?\d+) edit=(-?\d+) len=(\d+) dump=(\d+)/([0-9a-f]*)", (o or ""))
+            if not gb or gb.group(1) != "0" or int(gb.group(2)) < 0:
+                continue
+            before, after = gb.group(5)[2 * DETAIL_AT[kind]:], dump[2 * DETAIL_AT[kind]:]
+            if before != after:
+                found += 1
+                ctx.violation("S-alloc/fault-loss:" + l[:300], "with allocation %s refused the last append of `%s` reports failure, and the detail octets %s that the object held before the call are now %s" % (l.split()[1], fw.clip(inner, 100), before[:80] or "(none)", after[:80] or "(none)"),
+                              {"kind": "line", "suite": "S-alloc/faults", "line": l, "observed": cc, "expected": "a failed append loses no previously stored detail (before: %s)" % before[:400]})
+                if found >= 3:
+                    break
     if pend and found < 3:
         # histories whose LAST call reports failure: the object before that call is the fault-free object of the shorter history
         sib = []
